@@ -153,6 +153,39 @@ def impl_unit(case):
     return out
 
 
+def impl_alias(case):
+    """r1 = m.get_result(); m.change_unit(v); r2 = m.get_result(): is r1 still self-consistent?"""
+    from evo.core import metrics
+    from evo.core.units import Unit
+    vals = np.array([unhex(x) for x in case["vals"]], dtype=float)
+    m = _metric(case["cls"], case.get("rel", "translation_part"))
+    m.unit = Unit[case["u"]]
+    m.error = vals.copy()
+    out = {"cls": type(m).__name__}
+
+    def snap(res):
+        return {"keys": list(res.stats.keys()), "stats": {k: hexf(v) for k, v in res.stats.items()},
+                "error_array": [hexf(x) for x in np.asarray(res.np_arrays["error_array"], dtype=float).tolist()],
+                "label": res.info.get("label"), "title": res.info.get("title")}
+    try:
+        r1 = m.get_result()
+        out["r1_before"] = snap(r1)
+        try:
+            m.change_unit(Unit[case["v"]])
+            out["status"] = "CuOk"
+        except metrics.MetricsException as e:
+            out["status"] = "CuRefused"
+            out["reason"] = _refusal(str(e))
+        out["r1_after"] = snap(r1)
+        out["shares_memory"] = bool(np.shares_memory(r1.np_arrays["error_array"], m.error))
+        out["vals"] = [hexf(x) for x in np.asarray(m.error, dtype=float).tolist()]
+        out["unit"] = m.unit.name
+        out["r2"] = snap(m.get_result())
+    except Exception as e:  # noqa
+        return {"error": type(e).__name__ + ": " + str(e)[:200]}
+    return out
+
+
 def _traj(spec):
     from evo.core.trajectory import PoseTrajectory3D
     xyz = np.array([[unhex(c) for c in p] for p in spec["xyz"]], dtype=float).reshape(-1, 3)
@@ -311,7 +344,8 @@ def impl(case):
     import contextlib
     import io
     with contextlib.redirect_stdout(io.StringIO()):   # filters.py prints a progress counter
-        return {"stats": impl_stats, "unit": impl_unit, "ape": impl_ape, "rpe": impl_rpe}[case["kind"]](case)
+        return {"stats": impl_stats, "unit": impl_unit, "ape": impl_ape, "rpe": impl_rpe,
+                "alias": impl_alias}[case["kind"]](case)
 
 
 # ------------------------------------------------------------------------------------------------
@@ -349,6 +383,17 @@ def make_expr(quick):
                     "rpe_title_head %s (snd (snd r))))"
                     % (e, cu(case["u"]), cu(case["v"]), cstr(out.get("cls", "?") or "?"),
                        crel(case.get("rel", "translation_part")), crel(case.get("rel", "translation_part"))))
+        if kind == "alias":
+            if "r1_after" not in out:
+                return "(0%nat, tt)"
+            rel = crel(case.get("rel", "translation_part"))
+            titles = "(fun u => (label %s u, ape_title %s u, rpe_title_head %s u))" % (cstr(out["cls"]), rel, rel)
+            # the heap model of the scenario, the statistics of the EARLIER result's array as it is now,
+            # and label/title for the old and the new unit
+            return ("(let s := alias_scenario_F false pi_float %s %s %s in (s, all_statistics %s, %s %s, "
+                    "let '(_, _, _, _, _, u2, _) := s in %s u2))"
+                    % (cflist(unhex(x) for x in case["vals"]), cu(case["u"]), cu(case["v"]),
+                       cflist(unhex(x) for x in out["r1_after"]["error_array"]), titles, cu(case["u"]), titles))
         if out.get("skip") or "pref" not in out:
             return "(0%nat, tt)"
         is_rpe = kind == "rpe"
@@ -496,6 +541,8 @@ def _outcome(case, out):
         return "stats: " + ("large, exact sums" if "gen" in case else "Coq model")
     if kind == "unit":
         return "unit: " + str(out.get("status")) + (" " + str(out.get("reason")) if out.get("reason") else "")
+    if kind == "alias":
+        return "alias: get_result, change_unit %s, get_result" % out.get("status")
     if out.get("no_pairs"):
         return kind + ": no pairs (FilterException)"
     if "raw_error" in out:
@@ -528,7 +575,81 @@ def judge(case, val, out):
         return _judge_stats_block(out["stats"], out["keys"], vals, val, bool(case.get("exact")))
     if kind == "unit":
         return _judge_unit(case, val, out)
+    if kind == "alias":
+        return _judge_alias(case, val, out)
     return _judge_result(case, val, out)
+
+
+def _titles_ok(cls, snap, want):
+    wl, wa, wr = want
+    if snap["label"] != wl:
+        return "label %r, expected %r" % (snap["label"], wl)
+    t = snap["title"] or ""
+    if cls == "APE" and t != wa:
+        return "title %r, expected %r" % (t, wa)
+    if cls == "RPE" and not t.startswith(wr + "\nfor delta = "):
+        return "title %r does not start with %r" % (t, wr)
+    return None
+
+
+def _judge_alias(case, val, out):
+    if "error" in out:
+        return _viol("exception in get_result / change_unit: " + out["error"])
+    # Coq prints left-nested tuples flat: (((scenario, stats_now), titles_old), titles_new), the scenario
+    # itself being a 7-tuple in leftmost position
+    mst, ms1, me1, mu1, me2, mu2, ms2, mnow, told, tnew = val
+    mst = _status(mst)[0]
+    u, v = case["u"], case["v"]
+    b, a, r2 = out["r1_before"], out["r1_after"], out["r2"]
+    what = "Result taken before change_unit(%s -> %s)" % (u, v)
+    # the earlier Result: error_array bit-identical to the snapshot (and to the input values)
+    same = (len(a["error_array"]) == len(b["error_array"]) == len(case["vals"])
+            and all(bits_equal(unhex(x), unhex(y)) and bits_equal(unhex(x), unhex(z))
+                    for x, y, z in zip(a["error_array"], b["error_array"], case["vals"])))
+    if not same:
+        k = next((i for i, (x, y) in enumerate(zip(a["error_array"], b["error_array"]))
+                  if not bits_equal(unhex(x), unhex(y))), 0)
+        return _viol("%s: its error_array was changed afterwards (entry %d: %r -> %r) while its stats and label "
+                     "still describe the old values" % (what, k, unhex(b["error_array"][k]) if b["error_array"] else None,
+                                                        unhex(a["error_array"][k]) if a["error_array"] else None))
+    if a["stats"] != b["stats"] or a["keys"] != b["keys"]:
+        return _viol("%s: its stats changed afterwards" % what)
+    # ... and it is still self-consistent: stats = statistics of ITS error_array (as it is now)
+    vals_now = [unhex(x) for x in a["error_array"]]
+    j = _judge_stats_block(a["stats"], a["keys"], vals_now, (1, mnow), False)
+    if j:
+        j["detail"] = what + " is no longer self-consistent: " + j["detail"]
+        return j
+    j = _judge_stats_block(a["stats"], a["keys"], vals_now, (1, ms1), False)
+    if j:
+        j["detail"] = what + ": " + j["detail"]
+        return j
+    msg = _cmp_floats(a["error_array"], me1, True, "earlier error_array")
+    if msg:
+        return _viol(what + ": " + msg)
+    if a["label"] != b["label"] or a["title"] != b["title"]:
+        return _viol("%s: its label/title changed afterwards (%r -> %r)" % (what, b["label"], a["label"]))
+    msg = _titles_ok(case["cls"], a, told)
+    if msg or mu1 != cu(u):
+        return _viol("%s must keep naming the old unit %s: %s" % (what, u, msg))
+    # converse direction: the metric holds the converted values, a NEW result is consistent in the new unit
+    if out["status"] != mst:
+        return _viol("change_unit %s -> %s: implementation %s, model %s" % (u, v, out["status"], mst))
+    msg = _cmp_floats(out["vals"], me2, True, "metric value after %s -> %s" % (u, v))
+    if msg:
+        return _viol(msg)
+    if cu(out["unit"]) != mu2:
+        return _viol("metric unit after %s -> %s is %s, model %s" % (u, v, out["unit"], mu2))
+    if [unhex(x) for x in r2["error_array"]] != [unhex(x) for x in out["vals"]]:
+        return _viol("a new Result after change_unit does not hold the metric's values")
+    j = _judge_stats_block(r2["stats"], r2["keys"], [unhex(x) for x in r2["error_array"]], (1, ms2), False)
+    if j:
+        j["detail"] = "new Result after change_unit(%s -> %s): %s" % (u, v, j["detail"])
+        return j
+    msg = _titles_ok(case["cls"], r2, tnew)
+    if msg:
+        return _viol("new Result after change_unit(%s -> %s): %s" % (u, v, msg))
+    return None
 
 
 def _judge_big(case, out):
@@ -744,6 +865,8 @@ def nontrivial(case, val, out):
         return len(v) >= 2 and len(set(v)) >= 2
     if kind == "unit":
         return True
+    if kind == "alias":
+        return case["u"] != case["v"] and out.get("status") == "CuOk"
     if "error_array" not in out:
         return bool(out.get("error") == "MetricsException" and case.get("chg"))
     return len(out["error_array"]) >= 2
@@ -754,7 +877,7 @@ def nontrivial(case, val, out):
 # ------------------------------------------------------------------------------------------------
 def shrink(case):
     kind = case["kind"]
-    if kind in ("stats", "unit"):
+    if kind in ("stats", "unit", "alias"):
         xs = case.get("vals")
         if xs and len(xs) > 1:
             for cut in (len(xs) // 2, 1):
@@ -825,6 +948,9 @@ def corpus():
         mk_unit("none", "none", []), mk_unit("meters", "centimeters", []), mk_unit("radians", "degrees", [math.pi]),
         mk_unit("degrees", "radians", [180.0, 90.0], "APE", "rotation_angle_deg"),
         mk_unit("meters", "seconds", [1.0]), mk_unit("percent", "meters", [1.0], "RPE", "point_distance_error_ratio"),
+        # Result handed out before change_unit (fixed by 716b271: in-place scaling rescaled its error_array)
+        mk_alias("meters", "millimeters", [1.0, 2.0]), mk_alias("kilometers", "meters", [0.5, 0.25, 3.0], "APE"),
+        mk_alias("radians", "degrees", [0.5, 1.0], "RPE", "rotation_angle_rad"),
     ]
     n = 5
     st = [0.5 * k for k in range(n)]
@@ -857,6 +983,30 @@ def unit_cases(ctx):
                 rel = RELS[k % 7] if cls == "RPE" else RELS[k % 6]
                 out.append(mk_unit(u, v, a, cls, rel))
                 k += 1
+    return out
+
+
+def mk_alias(u, v, vals, cls="PE", rel="translation_part"):
+    return {"kind": "alias", "cls": cls, "rel": rel, "u": u, "v": v, "vals": [hexf(x) for x in vals]}
+
+
+def alias_cases(ctx):
+    """get_result() FIRST, then change_unit: every convertible ordered pair (12 length, rad<->deg), the
+    same-unit no-op and some refused pairs, on PE / APE / RPE objects (exhaustive over pairs x classes)."""
+    rng = ctx.np_rng(9)
+    length = UNITS[1:5]
+    pairs = [(a, b) for a in length for b in length if a != b] + [("radians", "degrees"), ("degrees", "radians")]
+    pairs += [("meters", "meters"), ("none", "none"), ("meters", "degrees"), ("percent", "meters"),
+              ("radians", "kilometers"), ("meters", "seconds")]
+    out = []
+    for u, v in pairs:
+        for cls in ("PE", "APE", "RPE"):
+            rel = {"degrees": "rotation_angle_deg", "radians": "rotation_angle_rad"}.get(u, "translation_part")
+            arrays = [[1.0, 2.0], [0.25], (rng.uniform(0, 10, int(rng.integers(2, 40))) * 10.0 ** rng.integers(-6, 4)).tolist()]
+            for rep in range(ctx.n(0, 3)):
+                arrays.append((rng.uniform(0, 1, int(rng.integers(1, 200))) * 10.0 ** rng.integers(-12, 7)).tolist())
+            for a in arrays:
+                out.append(mk_alias(u, v, a, cls, rel))
     return out
 
 
@@ -1055,7 +1205,8 @@ def run(ctx, replay=None, proofs_ok=True):
         parts = {}
     else:
         st, grid = stats_cases(ctx)
-        parts = {"corpus": corpus(), "unit": unit_cases(ctx), "stats": st, "ape": ape_cases(ctx), "rpe": rpe_cases(ctx)}
+        parts = {"corpus": corpus(), "unit": unit_cases(ctx), "alias": alias_cases(ctx), "stats": st,
+                 "ape": ape_cases(ctx), "rpe": rpe_cases(ctx)}
         cases = [c for p in parts.values() for c in p]
     if not cases:
         return {"failures": [], "coverage": {"evaluations": 0, "distinct_nontrivial": 0, "rule": "replay of an "
@@ -1069,6 +1220,8 @@ def run(ctx, replay=None, proofs_ok=True):
             b = "stats:n<=%d%s" % (10 ** len(str(max(n - 1, 0))) if n > 1 else 1, ",exact" if c.get("exact") else "")
         elif c["kind"] == "unit":
             b = "unit:%s" % ("empty" if not c["vals"] else "values")
+        elif c["kind"] == "alias":
+            b = "alias:%s" % c["cls"]
         else:
             b = "%s:%s%s" % (c["kind"], c["rel"], ",chg" if c.get("chg") else "")
         hist[b] = hist.get(b, 0) + 1
@@ -1079,7 +1232,8 @@ def run(ctx, replay=None, proofs_ok=True):
         samples = cases[:1]
     cov = {"evaluations": stats["evaluations"], "distinct_nontrivial": stats["distinct_nontrivial"],
            "rule": "corpus + EXHAUSTIVE: all 100 ordered unit pairs x 5 arrays (empty, single, mixed magnitudes, "
-                   "with zero, random) on PE/APE/RPE objects; all arrays of length 1..%d over a 5-value dyadic alphabet "
+                   "with zero, random) on PE/APE/RPE objects; get_result() then change_unit then get_result() for every "
+                   "convertible ordered pair x PE/APE/RPE (earlier Result must stay untouched and self-consistent); all arrays of length 1..%d over a 5-value dyadic alphabet "
                    "(exact regime); every 0/1 step pattern of a 2..%d-pose reference line for the ratio filter. "
                    "RANDOM: arrays of 1..%d values (integers/dyadics around numpy's block sizes 8/128; magnitudes "
                    "1e-12..1e6 uniform/mixed/constant/nearly constant/sorted), arrays up to %d values against exact "
@@ -1091,6 +1245,7 @@ def run(ctx, replay=None, proofs_ok=True):
                    % (4 if ctx.quick else 5, 5 if ctx.quick else 7, SORT_CAP[ctx.quick], 10 ** 4 if ctx.quick else 10 ** 6),
            "samples": samples, "input_distribution": hist, "exhaustive": False,
            "exhaustive_subspaces": {"ordered unit pairs x {empty, non-empty}": True,
+                                    "get_result-then-change_unit: convertible pairs x classes": True,
                                     "dyadic arrays up to length %d" % (4 if ctx.quick else 5): True,
                                     "cases": grid + 500},
            "regimes": {"exact": Regimes.exact, "rounded": Regimes.rounded, "fragile": 0,
